@@ -14,7 +14,7 @@
                             registers, memory and the CFA — never on the caller state being built)
                             and applied with `set_caller_register` / `clear_caller_register` of
                             `CfiStackWalker` (minidump-unwind/src/lib.rs:624-637), which first
-                            canonicalises the label (`memoize_register`: `x29`→`fp`, `x30`→`lr`),
+                            canonicalises the label (`memoize_register` of the CPU: ARM64 `x29`→`fp`, ARM `r11`→`fp` …),
                             so two labels may hit one register. (`walkRestUnsorted`: before fix
                             c84fd4e.)
     * `joinByIndex`         `process_minidump_with_options` (processor.rs:1143-1225): one future per
@@ -45,6 +45,7 @@
   order every correct sort returns the same list (`MdProofs.C13.sort_unique`).
 -/
 import MdModel.Prelude
+import MdModel.Regs
 namespace MdModel.Det
 open MdModel
 
@@ -108,11 +109,16 @@ abbrev Regs := Nat → Cell
 
 def upd (f : Regs) (i : Nat) (c : Cell) : Regs := fun j => if j = i then c else f j
 
-/-- `CfiStackWalker::set_caller_register` -/
+/-- `CfiStackWalker::set_caller_register` FOLLOWED BY what `walk_with_stack_cfi` does with its
+    answer (walker.rs:545-551): `memoize_register(name)?` — an unknown name changes nothing (the
+    `clear_caller_register` that follows is a no-op for it as well); `C::Register::try_from(val).ok()?`
+    — a value the register cannot hold (more than 32 bits on x86/ARM/PPC) leaves the value alone and
+    the following `clear_caller_register(name)` removes the canonical name from the validity set
+    (fix for F25); otherwise the canonical name becomes valid and the cell is written. -/
 def setReg (W : Walker) (s : Regs) (label : List Nat) (v : Nat) : Regs :=
   match W.canon label with
   | none => s
-  | some r => if W.fits v then upd s r ⟨v, true⟩ else s
+  | some r => if W.fits v then upd s r ⟨v, true⟩ else upd s r ⟨(s r).val, false⟩
 
 /-- `CfiStackWalker::clear_caller_register` (after fix 88e196e: the canonical name is removed) -/
 def clearReg (W : Walker) (s : Regs) (label : List Nat) : Regs :=
@@ -133,30 +139,37 @@ def walkRest (W : Walker) (s : Regs) (iter : List Rule) : Regs := runRules W s (
 /-- before c84fd4e: applied in iteration order -/
 def walkRestUnsorted (W : Walker) (s : Regs) (iter : List Rule) : Regs := runRules W s iter
 
-/-- decimal number of an all-digit byte string without leading zero (except "0") -/
-def decOf (bs : List Nat) : Option Nat :=
-  match bs with
-  | [] => none
-  | [48] => some 0
-  | 48 :: _ => none
-  | _ => bs.foldl (fun acc b => match acc with
-      | none => none
-      | some a => if 48 ≤ b ∧ b ≤ 57 then some (a * 10 + (b - 48)) else none) (some 0)
+/-! #### the per-architecture label tables
 
-/-- `CONTEXT_ARM64::memoize_register` (minidump/src/context.rs:496-502): `x0`…`x28`, `fp`, `lr`,
-    `sp`, `pc` and the aliases `x29` (= `fp`) and `x30` (= `lr`); ids 0…32 -/
-def canonArm64 (label : List Nat) : Option Nat :=
-  if label = [102, 112] then some 29        -- "fp"
-  else if label = [108, 114] then some 30   -- "lr"
-  else if label = [115, 112] then some 31   -- "sp"
-  else if label = [112, 99] then some 32    -- "pc"
-  else match label with
-    | 120 :: ds => match decOf ds with       -- 'x'
-      | some n => if n ≤ 30 then some n else none
-      | none => none
-    | _ => none
+  `memoize_register` of the nine `CpuContext` implementations (minidump/src/context.rs) is NOT
+  re-modelled here: `MdModel.Regs.memoize` interprets the tables that translators/regs.py
+  regenerates from context.rs on every run (`MdModel.Gen.Regs`: `REGISTERS`, the alias arms
+  ARM `r11`→`fp` `r13`→`sp` `r14`→`lr` `r15`→`pc`, ARM64 / ARM64_OLD `x29`→`fp` `x30`→`lr`, SPARC's
+  `sparc_alias_index`), property C18 proves and ties that interpretation. A register is identified
+  by its position in `REGISTERS`. -/
 
-def arm64 : Walker := ⟨canonArm64, fun v => v < 2 ^ 64⟩
+open MdModel.Gen.Regs in
+/-- a CFI label (ASCII bytes) as the `&str` handed to `memoize_register` -/
+def labelStr (label : List Nat) : String := String.ofList (label.map Char.ofNat)
+
+open MdModel.Gen.Regs in
+/-- canonical register of a label on CPU `c`: position of `memoize_register(label)` in `REGISTERS` -/
+def canonCpu (c : Ctx) (label : List Nat) : Option Nat :=
+  match MdModel.Regs.memoize c (labelStr label) with
+  | .ok (some r) => (registers c).findIdx? (· == r)
+  | _ => none
+
+open MdModel.Gen.Regs in
+/-- the `CfiStackWalker<C>` of CPU `c`: its label table and `C::Register::try_from(u64)` -/
+def cpu (c : Ctx) : Walker := ⟨canonCpu c, fun v => v < 2 ^ regBits c⟩
+
+abbrev arm64 : Walker := cpu .ARM64
+abbrev arm : Walker := cpu .ARM
+
+/-- the seeded variant C13-2a: "only pay for the sort when one of the alias names is used" — the
+    entries are sorted only if some label satisfies `isAlias` (there: `x29`, `x30`) -/
+def walkRestSortIf (isAlias : List Nat → Bool) (W : Walker) (s : Regs) (iter : List Rule) : Regs :=
+  if iter.any (fun r => isAlias r.1) then walkRest W s iter else walkRestUnsorted W s iter
 
 /-! ### 3. per-thread walks joined by index -/
 
@@ -250,14 +263,62 @@ def certReport (iter : CertInfo) (shown : List (List Nat)) : List (Option (List 
 def certReportUnsorted (iter : CertInfo) (shown : List (List Nat)) : List (Option (List Nat)) :=
   shown.map (certLookup (certMapUnsorted iter))
 
+/-! ### 7. the thread-local print context (`SERIALIZATION_CONTEXT`, process_state.rs:25-29, 1180-1184)
+
+  `Address`'s `Display`/`Serialize` (every crash address, module base, frame offset of the JSON and
+  text reports) reads the pointer width from a THREAD-LOCAL that `print`, `print_brief` and
+  `print_json` fill with `set_print_context` before writing anything. What a print shows is
+  therefore a function of the thread's history unless every print overwrites the context. -/
+
+/-- `PointerWidth` as far as `Address` cares: 32, 64, anything else = `Unknown` -/
+abbrev Width := Nat
+
+/-- `set_print_context` (current code): `ctx.pointer_width = Some(self.system_info.cpu.pointer_width())` -/
+def setCtx (_ctx : Option Width) (w : Width) : Option Width := some w
+
+/-- the seeded variant C13-2b: `pointer_width.get_or_insert_with(..)` — only the first print on a
+    thread fills the context -/
+def setCtxOnce (ctx : Option Width) (w : Width) : Option Width :=
+  match ctx with
+  | some v => some v
+  | none => some w
+
+/-- number of characters `Address::fmt` writes for a small address: `{:#010x}` under `Bits32`,
+    `{:#018x}` otherwise (`Bits64`, `Unknown`, or no context at all) -/
+def addrChars (ctx : Option Width) : Nat := if ctx = some 32 then 10 else 18
+
+/-- the prints a thread performs one after the other (the pointer width of each printed state),
+    starting from the context `ctx`: the address width each of them shows -/
+def printSeq (set : Option Width → Width → Option Width) (ctx : Option Width) : List Width → List Nat
+  | [] => []
+  | w :: ws => addrChars (set ctx w) :: printSeq set (set ctx w) ws
+
+/-! ### 8. register heuristics of a possible bit flip (`calculate_heuristics`, process_state.rs:399-424)
+
+  `for (_, addr) in context.valid_registers()` — for a context with validity `Some(set)` this
+  iterates the validity `HashSet` — counting registers near the candidate address and looking for a
+  poison pattern. The loop body only increments a counter and sets a flag. -/
+
+/-- one iteration: `near v` = `should_calculate_nearby_registers && abs_diff(addr, v) <= 512`,
+    `poison v` = `is_repeated(v) && (v & 0xff) ∈ {0x2b, …}`; state = (`nearby_registers`, `poison_registers`) -/
+def heurStep (near poison : Nat → Bool) (acc : Nat × Bool) (v : Nat) : Nat × Bool :=
+  (if near v then acc.1 + 1 else acc.1, if !acc.2 && poison v then true else acc.2)
+
+/-- the loop over the register values in ITERATION order -/
+def heuristics (near poison : Nat → Bool) (vals : List Nat) : Nat × Bool :=
+  vals.foldl (heurStep near poison) (0, false)
+
 /-! ### line protocol
   `det model lim:<E,..|-> mods:<hexleaf=res,..|-> done:<i,i,..|-> thr:<i.i.i|->/<tid,tid,..|-> fixed:<hex,..|-> valid:<hex,..|-> jvalid:<hex,..|-> certs:<hexcert=hexmod+hexmod..,..|-> cshown:<hexname,..|->`
       E = `<hexname>/<rest>`; lists in the order the real containers were iterated / the real
       supplier calls completed; `valid` = validity set of a recovered frame (text report),
       `jvalid` = the set `json_registers` tests for the crashing thread's context frame.
       -> `lim:<E,..> stats:<mlc,..> thr:<tid,..> text:<hex,..> json:<hex,..> cert:<hexcert|0,..>`
-  `det cfi init:<r=v+|r=v-,..|-> rules:<hexlabel=v|hexlabel=-,..|->`   (rules in any order)
-      -> `regs:<r=v+|r=v-,..>` for the registers 0…32 that are valid or were touched
+  `det cfi [cpu:<X86|AMD64|ARM|ARM64_OLD|ARM64|PPC|PPC64|MIPS|SPARC>] init:<r=v+|r=v-,..|-> rules:<hexlabel=v|hexlabel=-,..|->`
+      (rules in any order; r = position in the CPU's `REGISTERS`; no `cpu:` field = ARM64)
+      -> `regs:<r=v+|r=v-,..>` for the registers that are valid or were touched
+  `det ctx widths:<32|64|0,..>`   pointer widths of the states one thread prints, in order
+      -> `chars:<10|18,..>` characters of the crash address each print shows
 -/
 open Proto
 
@@ -337,15 +398,18 @@ def parseRule (s : String) : Option Rule :=
     | some l => if v == "-" then some (l, none) else (optNat v).map fun v => (l, some v)
   | _ => none
 
-def handleCfi (init rules : String) : String :=
-  match allSome ((listOf init ",").map parseCell), allSome ((listOf rules ",").map parseRule) with
-  | some init, some rules =>
+def handleCfi (cpuName init rules : String) : String :=
+  match MdModel.Gen.Regs.Ctx.all.find? (fun c => c.name == cpuName),
+        allSome ((listOf init ",").map parseCell), allSome ((listOf rules ",").map parseRule) with
+  | some c, some init, some rules =>
+    let n := (MdModel.Gen.Regs.registers c).length
+    if init.any (fun (r, _) => r ≥ n) then "bad-op" else
     let s0 : Regs := init.foldl (fun s (r, c) => upd s r c) (fun _ => ⟨0, false⟩)
-    let s := walkRest arm64 s0 rules
-    let touched := init.map (·.1) ++ rules.filterMap (fun r => canonArm64 r.1)
-    let shown := (List.range 33).filter fun r => (s r).valid || touched.contains r
+    let s := walkRest (cpu c) s0 rules
+    let touched := init.map (·.1) ++ rules.filterMap (fun r => canonCpu c r.1)
+    let shown := (List.range n).filter fun r => (s r).valid || touched.contains r
     "regs:" ++ joinWith "," (shown.map fun r => s!"{r}={(s r).val}{if (s r).valid then "+" else "-"}")
-  | _, _ => "bad-op"
+  | _, _, _ => "bad-op"
 
 def field (pfx : String) (s : String) : Option String :=
   if s.startsWith pfx then some (s.drop pfx.length).toString else none
@@ -362,8 +426,20 @@ def handle (_engine : String) (args : List String) : String :=
     | _, _, _, _, _, _, _, _, _ => "bad-op"
   | ["cfi", init, rules] =>
     match field "init:" init, field "rules:" rules with
-    | some init, some rules => handleCfi init rules
+    | some init, some rules => handleCfi "ARM64" init rules
     | _, _ => "bad-op"
+  | ["cfi", cpuName, init, rules] =>
+    match field "cpu:" cpuName, field "init:" init, field "rules:" rules with
+    | some cpuName, some init, some rules => handleCfi cpuName init rules
+    | _, _, _ => "bad-op"
+  | ["ctx", ws] =>
+    -- `det ctx widths:<32|64|0,..>`: the prints of one thread, in order -> `chars:<10|18,..>`
+    match field "widths:" ws with
+    | some ws =>
+      match allSome ((listOf ws ",").map optNat) with
+      | some ws => "chars:" ++ joinWith "," ((printSeq setCtx none ws).map toString)
+      | none => "bad-op"
+    | none => "bad-op"
   | _ => "bad-op"
 
 end MdModel.Det
